@@ -14,33 +14,13 @@ use bincode::Options;
 use std::panic::{catch_unwind, AssertUnwindSafe};
 use vh::rng::Rng;
 use wire_common::apps::{self, kvapp, zoo};
-use wire_common::arb::Arb;
+use wire_common::arb::{http_response, kv_response, time_response, Arb};
 use wire_common::schema::{self, GenCfg};
 use wire_common::table::{self, bridge_opts};
 use wire_common::{hex, json_str};
 
 fn case_b(app: &str, f: &str, b: &[u8], src: &str) {
     println!("{{\"d\":\"b\",\"app\":{},\"f\":{},\"b\":\"{}\",\"src\":{}}}", json_str(app), json_str(f), hex(b), json_str(src));
-}
-
-fn kv_response(r: &mut Rng, op: &crux_kv::KeyValueOperation) -> crux_kv::KeyValueResult {
-    use crux_kv::{value::Value, KeyValueOperation as O, KeyValueResponse as R, KeyValueResult};
-    if r.coin(1, 5) { return KeyValueResult::Err { error: Arb::arb(r) }; }
-    let response = match op {
-        O::Get { .. } => R::Get { value: Value::arb(r) },
-        O::Set { .. } => R::Set { previous: Value::arb(r) },
-        O::Delete { .. } => R::Delete { previous: Value::arb(r) },
-        O::Exists { .. } => R::Exists { is_present: Arb::arb(r) },
-        O::ListKeys { .. } => R::ListKeys { keys: Arb::arb(r), next_cursor: Arb::arb(r) },
-    };
-    KeyValueResult::Ok { response }
-}
-fn http_response(r: &mut Rng) -> crux_http::protocol::HttpResult {
-    use crux_http::protocol::{HttpHeader, HttpResponse, HttpResult};
-    if r.coin(1, 4) { return HttpResult::Err(Arb::arb(r)); }
-    let status = *r.pick(&[200u16, 201, 204, 301, 400, 404, 500, 503]);
-    let headers = (0..r.below(3)).map(|i| HttpHeader { name: format!("x-h{}", i), value: format!("v{}", r.below(100)) }).collect();
-    HttpResult::Ok(HttpResponse { status, headers, body: wire_common::arb::Blob::arb(r).0 })
 }
 
 fn drive_kvapp(r: &mut Rng, histories: u64) {
@@ -58,12 +38,7 @@ fn drive_kvapp(r: &mut Rng, histories: u64) {
                     let bytes = match &req.effect {
                         kvapp::EffectFfi::KeyValue(op) => bridge_opts().serialize(&kv_response(r, op)).unwrap(),
                         kvapp::EffectFfi::Http(_) => bridge_opts().serialize(&http_response(r)).unwrap(),
-                        kvapp::EffectFfi::Time(t) => bridge_opts().serialize(&match t {
-                            crux_time::TimeRequest::Now => crux_time::TimeResponse::Now { instant: Arb::arb(r) },
-                            crux_time::TimeRequest::NotifyAfter { id, .. } => crux_time::TimeResponse::DurationElapsed { id: *id },
-                            crux_time::TimeRequest::NotifyAt { id, .. } => crux_time::TimeResponse::InstantArrived { id: *id },
-                            crux_time::TimeRequest::Clear { id } => crux_time::TimeResponse::Cleared { id: *id },
-                        }).unwrap(),
+                        kvapp::EffectFfi::Time(t) => bridge_opts().serialize(&time_response(r, t)).unwrap(),
                         kvapp::EffectFfi::Platform(_) => bridge_opts().serialize(&crux_platform::PlatformResponse::arb(r)).unwrap(),
                         kvapp::EffectFfi::Render(_) => return None,
                     };
